@@ -212,6 +212,9 @@ func onPongMessageReader(message any, reader *Reader, codec Codec) error {
 
 func onPongMessageWriter(message any, writer *Writer, codec Codec) error {
 	m := message.(*PongMessage)
+	if m.Ping == nil {
+		return fmt.Errorf("cannot write PongMessage: nil Ping")
+	}
 	if err := WriteTime(writer, m.Ping.Time); err != nil {
 		return err
 	}
